@@ -169,9 +169,9 @@ theorem dropLast_range_shift (nax off : Nat) :
     simp
 
 /-- a subset of the label dims (`nax < by.ndim`): `axis_` is renumbered to the last `nax` dims in ascending
-    order, so the combine never sees a repeated axis — for every order and sign in which `axis` was given -/
-theorem chunked_ok_moved (ndim byNdim : Nat) (axes : List Nat) (h : axes.length < byNdim) (hby : byNdim ≤ ndim)
-    (m : Method) (hm : m ≠ .blockwise) :
+    order, so the combine never sees a repeated axis -/
+theorem chunked_ok_moved (ndim byNdim : Nat) (axes : List Nat) (h : axes.length < byNdim) (hle : axes.length ≤ ndim)
+    (m : Method) :
     chunkedError ndim (entryOf ndim byNdim axes) m = none := by
   have hcont : (((List.range axes.length).map (· + (ndim - axes.length))).dropLast.contains (ndim - 1)) = false := by
     rw [dropLast_range_shift]
@@ -183,34 +183,144 @@ theorem chunked_ok_moved (ndim byNdim : Nat) (axes : List Nat) (h : axes.length 
   unfold chunkedError entryOf
   simp only [h, if_true]
   cases m with
-  | blockwise => exact absurd rfl hm
+  | blockwise => rfl
   | mapreduce => simp only [hcont]; simp
   | cohorts => simp only [hcont]; simp
 
-/-- all label dims reduced, PARTIAL: the graph is fine when the last array axis is also the last entry of `axis`
-    (in particular when `axis` is ascending) -/
-theorem chunked_ok_all_partial (ndim byNdim : Nat) (axes : List Nat) (h : ¬ axes.length < byNdim) (hnd : axes.Nodup)
-    (hlast : axes.getLast? = some (ndim - 1)) (m : Method) (hm : m ≠ .blockwise) :
-    chunkedError ndim (entryOf ndim byNdim axes) m = none := by
-  have hcont : (axes.dropLast.contains (ndim - 1)) = false := by
-    apply Bool.eq_false_iff.mpr
-    intro hc
-    simp only [List.contains_eq_mem, decide_eq_true_eq] at hc
-    have hne : axes ≠ [] := by intro e; simp [e] at hlast
-    have hsplit := List.dropLast_concat_getLast hne
-    have hl : axes.getLast hne = ndim - 1 := by
-      have := List.getLast?_eq_some_getLast hne
-      rw [this] at hlast
-      exact Option.some.inj hlast
-    rw [← hsplit, hl] at hnd
-    have := (List.nodup_append.mp hnd).2.2 (ndim - 1) hc (ndim - 1) (by simp)
-    exact this rfl
-  unfold chunkedError entryOf
-  simp only [h, if_false]
-  cases m with
-  | blockwise => exact absurd rfl hm
-  | mapreduce => simp only [hcont]; simp
-  | cohorts => simp only [hcont]; simp
+/-! ### `sorted(...)`: insertion sort keeps the elements, removes the order -/
+
+theorem mem_insertNat {x y : Nat} {l : List Nat} : y ∈ insertNat x l ↔ y = x ∨ y ∈ l := by
+  induction l with
+  | nil => simp [insertNat]
+  | cons a t ih =>
+    simp only [insertNat]
+    split
+    · simp
+    · simp only [List.mem_cons, ih]
+      constructor
+      · rintro (h | h | h)
+        · exact Or.inr (Or.inl h)
+        · exact Or.inl h
+        · exact Or.inr (Or.inr h)
+      · rintro (h | h | h)
+        · exact Or.inr (Or.inl h)
+        · exact Or.inl h
+        · exact Or.inr (Or.inr h)
+
+theorem mem_sortNat {y : Nat} {l : List Nat} : y ∈ sortNat l ↔ y ∈ l := by
+  induction l with
+  | nil => simp [sortNat]
+  | cons a t ih =>
+    have : sortNat (a :: t) = insertNat a (sortNat t) := rfl
+    rw [this, mem_insertNat, ih]
+    simp
+
+theorem length_insertNat (x : Nat) (l : List Nat) : (insertNat x l).length = l.length + 1 := by
+  induction l with
+  | nil => simp [insertNat]
+  | cons a t ih =>
+    simp only [insertNat]
+    split <;> simp [ih]
+
+theorem length_sortNat (l : List Nat) : (sortNat l).length = l.length := by
+  induction l with
+  | nil => simp [sortNat]
+  | cons a t ih =>
+    have : sortNat (a :: t) = insertNat a (sortNat t) := rfl
+    rw [this, length_insertNat, ih]
+    simp
+
+theorem pairwise_insertNat (x : Nat) (l : List Nat) (h : l.Pairwise (· ≤ ·)) : (insertNat x l).Pairwise (· ≤ ·) := by
+  induction l with
+  | nil => simp [insertNat]
+  | cons a t ih =>
+    have ht := (List.pairwise_cons.mp h)
+    simp only [insertNat]
+    split
+    · rename_i hxa
+      apply List.pairwise_cons.mpr
+      refine ⟨?_, h⟩
+      intro b hb
+      rcases List.mem_cons.mp hb with rfl | hb
+      · exact hxa
+      · exact Nat.le_trans hxa (ht.1 b hb)
+    · rename_i hxa
+      apply List.pairwise_cons.mpr
+      refine ⟨?_, ih ht.2⟩
+      intro b hb
+      rcases mem_insertNat.mp hb with rfl | hb
+      · omega
+      · exact ht.1 b hb
+
+theorem pairwise_sortNat (l : List Nat) : (sortNat l).Pairwise (· ≤ ·) := by
+  induction l with
+  | nil => simp [sortNat]
+  | cons a t ih => exact pairwise_insertNat a _ ih
+
+theorem nodup_insertNat (x : Nat) (l : List Nat) (hx : x ∉ l) (h : l.Nodup) : (insertNat x l).Nodup := by
+  induction l with
+  | nil => simp [insertNat]
+  | cons a t ih =>
+    have ht := List.nodup_cons.mp h
+    simp only [insertNat]
+    split
+    · exact List.nodup_cons.mpr ⟨hx, h⟩
+    · apply List.nodup_cons.mpr
+      refine ⟨?_, ih (fun hm => hx (by simp [hm])) ht.2⟩
+      intro hm
+      rcases mem_insertNat.mp hm with rfl | hm
+      · exact hx (by simp)
+      · exact ht.1 hm
+
+theorem nodup_sortNat (l : List Nat) (h : l.Nodup) : (sortNat l).Nodup := by
+  induction l with
+  | nil => simp [sortNat]
+  | cons a t ih =>
+    have ht := List.nodup_cons.mp h
+    exact nodup_insertNat a _ (fun hm => ht.1 (mem_sortNat.mp hm)) (ih ht.2)
+
+theorem keptDims_sortNat (ndim : Nat) (axes : List Nat) : keptDims ndim (sortNat axes) = keptDims ndim axes := by
+  simp only [keptDims]
+  apply List.filter_congr
+  intro d _
+  have : d ∈ sortNat axes ↔ d ∈ axes := mem_sortNat
+  by_cases h : d ∈ axes
+  · simp [h, this.mpr h]
+  · have h2 : d ∉ sortNat axes := fun h' => h (this.mp h')
+    simp [h, h2]
+
+/-- in an ascending duplicate-free list of dims `< ndim`, the last array dim can only be the last entry -/
+theorem sorted_dropLast_not_last (ndim : Nat) (l : List Nat) (hs : l.Pairwise (· ≤ ·)) (hnd : l.Nodup)
+    (hlt : ∀ a ∈ l, a < ndim) : l.dropLast.contains (ndim - 1) = false := by
+  apply Bool.eq_false_iff.mpr
+  intro hc
+  simp only [List.contains_eq_mem, decide_eq_true_eq] at hc
+  have hne : l ≠ [] := by intro e; simp [e] at hc
+  have hsplit := List.dropLast_concat_getLast hne
+  have hlast : l.getLast hne < ndim := hlt _ (List.getLast_mem hne)
+  rw [← hsplit] at hs hnd
+  have hle := (List.pairwise_append.mp hs).2.2 (ndim - 1) hc (l.getLast hne) (by simp)
+  have heq : l.getLast hne = ndim - 1 := by omega
+  have := (List.nodup_append.mp hnd).2.2 (ndim - 1) hc (l.getLast hne) (by simp)
+  exact this heq.symm
+
+/-- **the graph is order-independent**: whatever the order (and sign) in which the reduced axes were named, after
+    `sorted(...)` no plan has an order-dependent failure — for proper subsets and for all label dims alike -/
+theorem chunked_ok_sorted (ndim byNdim : Nat) (axes : List Nat) (hnd : axes.Nodup) (hlt : ∀ a ∈ axes, a < ndim)
+    (m : Method) :
+    chunkedError ndim (entryOf ndim byNdim (sortNat axes)) m = none := by
+  have hlt' : ∀ a ∈ sortNat axes, a < ndim := fun a ha => hlt a (mem_sortNat.mp ha)
+  have hcount := kept_count ndim (sortNat axes) (nodup_sortNat axes hnd) hlt'
+  by_cases h : (sortNat axes).length < byNdim
+  · exact chunked_ok_moved ndim byNdim (sortNat axes) h (by omega) m
+  · have hcont := sorted_dropLast_not_last ndim (sortNat axes) (pairwise_sortNat axes) (nodup_sortNat axes hnd)
+      (fun a ha => hlt a (mem_sortNat.mp ha))
+    unfold chunkedError entryOf
+    simp only [h, if_false]
+    cases m with
+    | blockwise => rfl
+    | mapreduce => simp only [hcont]; simp
+    | cohorts => simp only [hcont]; simp
 
 end PartialAxis
 end Flox
